@@ -242,6 +242,11 @@ impl XFuncSpec {
         (min, max)
     }
 
+    pub(crate) fn accepts_arg_count(&self, count: usize) -> bool {
+        let (min, max) = self.arg_len_range();
+        min <= count && count <= max
+    }
+
     pub(crate) fn bind(&self, args: &[Arc<XType>]) -> Option<Bind> {
         let (min, max) = self.arg_len_range();
         if args.len() < min || args.len() > max {
